@@ -84,6 +84,9 @@ func (x *Exec) expectedRecords(t int) [][]string {
 
 func parseRes(res string) (class string, fields map[string]string) {
 	fields = map[string]string{}
+	if res == "PANIC" { // the whole call panicked: no fields at all
+		return "PANIC", fields
+	}
 	for _, f := range strings.Fields(res) {
 		if i := strings.IndexByte(f, '='); i > 0 {
 			fields[f[:i]] = f[i+1:]
